@@ -356,6 +356,23 @@ fn extra_inputs() -> Vec<Vec<u8>> {
 			v.push(format!("\"{ch}\"{tail}").into_bytes());
 		}
 	}
+	// TOML on which the YAML trial gives up early, longer than what detection captured by then, with
+	// multi-byte characters across every plausible capture boundary (8 KiB and 16 KiB, all alignments)
+	for boundary in [8192usize, 16384] {
+		for ch in ["é", "€", "😀"] {
+			for align in 0..ch.len() {
+				let mut s = String::from("[t]\nx = 1 # c: d\ny = \"");
+				let pad = boundary - 60 + align - s.len();
+				s.push_str(&"p".repeat(pad));
+				for _ in 0..40 {
+					s.push_str(ch);
+				}
+				s.push_str(&"q".repeat(9000));
+				s.push_str("\"\n");
+				v.push(s.into_bytes());
+			}
+		}
+	}
 	// inputs several formats accept
 	for s in ["{}", "[]", "[1, 2]", "{\"a\": 1}", "a = 1", "[t]", "[t]\na = 1\n", "k = \"a: b\"", "1", "true", "\"s\"", "- 1", "a: 1"] {
 		v.push(s.as_bytes().to_vec());
@@ -422,11 +439,12 @@ fn check_detect(t: &mut Tally, input: &[u8], d: usize, targets: &[F]) {
 		}
 		// reader: every schedule
 		let marks = newline_marks(input);
-		let chunks: &[usize] = if input.len() <= 2 { &[0] } else { &[0, 1] };
+		let big = input.len() > 4096;
+		let chunks: &[usize] = if input.len() <= 2 { &[0] } else if input.len() > 100_000 { &[0, 65536] } else if big { &[0, 4093] } else { &[0, 1] };
 		let mut explicit: HashMap<F, (Outcome, Outcome, Outcome)> = HashMap::new();
 		for &chunk in chunks {
 			let pol = policy(chunk, true, false, &marks);
-			let st = explore(d, 3000, |env| {
+			let st = explore(if big { 0 } else { d }, 3000, |env| {
 				let dr = detect_reader(SchedReader::new(input, env, pol.clone()));
 				let choices = env.borrow().choices();
 				t.evaluations += 1;
